@@ -5,6 +5,7 @@ import (
 	"fmt"
 	"math/rand"
 	"os"
+	"path/filepath"
 	"reflect"
 	"sort"
 	"strings"
@@ -22,6 +23,9 @@ type MergeCase struct {
 	Index int               `json:"index"`
 	Files map[string]string `json:"files"`
 	Loads int               `json:"loads"`
+	// trees that differ from Files only in the name of one file (TwinNames[i] in twin i, TwinNames[0] in Files)
+	Twins     []map[string]string `json:"twins,omitempty"`
+	TwinNames []string            `json:"twin_names,omitempty"`
 	// filled after the run
 	Diag     *Diag      `json:"diag,omitempty"`
 	Outcome  []string   `json:"outcome,omitempty"`
@@ -31,10 +35,10 @@ type MergeCase struct {
 
 // Diag: a Go-side diagnosis of what differed, used only to give each defect a narrow signature.
 type Diag struct {
-	AttrsLost []string `json:"attrs_lost,omitempty"` // ast.Task / Cmd / Dep fields whose value changed through the merge
-	RootRef   []string `json:"rootref,omitempty"`    // nested | flatten
-	C09       []string `json:"c09,omitempty"`        // classes of differences between loads of the same tree
-	Distinct  int      `json:"distinct_loads,omitempty"`
+	AttrsLost       []string `json:"attrs_lost,omitempty"` // ast.Task / Cmd / Dep fields whose value changed through the merge
+	RootRef         []string `json:"rootref,omitempty"`    // nested | flatten
+	C09             []string `json:"c09,omitempty"`        // classes of differences between loads of the same tree
+	Distinct        int      `json:"distinct_loads,omitempty"`
 	DeepCopyMissing []string `json:"deepcopy_missing,omitempty"` // fields of ast.Task that a populated value loses through Task.DeepCopy (run on the real code)
 }
 
@@ -257,6 +261,9 @@ func features(files []*GFile) []string {
 			if strings.Contains(in.NS, ":") {
 				add("colon:namespace")
 			}
+			if len(in.Excludes) > 0 && in.Excludes[0] == "default" && !in.Flatten {
+				add("excludes-default")
+			}
 			if in.NS == "cyc" {
 				add("inject:cycle")
 			}
@@ -274,6 +281,11 @@ func features(files []*GFile) []string {
 		}
 		if f.Dotenv {
 			add("inject:dotenv")
+		}
+		for _, kv := range f.Vars {
+			if _, ok := kv.V.(OM); ok {
+				add("dynamic-global")
+			}
 		}
 		for _, t := range f.Tasks {
 			for _, kv := range t.Attrs {
@@ -328,6 +340,16 @@ func Main(args []string) {
 				gf = EnumSmall(c.Index, cr) // small-scope exhaustive part of the thorough tier
 			} else if mode == "c09" && c.Index%3 == 1 {
 				gf = GenerateTpl(cr, c.Index/3) // templated nested include paths
+			} else if (mode == "c09" && c.Index%6 == 2) || (mode == "c08" && c.Index%10 == 9) {
+				// long-form + short-form includes of a file with sh: vars, and its twin under another file name
+				k := c.Index / 6
+				gf = GenerateDirLeak(cr, k)
+				twin := map[string]string{}
+				for _, f := range GenerateDirLeak(rand.New(rand.NewSource(c.Seed)), k^1) {
+					twin[f.Path] = f.Render()
+				}
+				c.Twins = []map[string]string{twin}
+				c.TwinNames = []string{DirLeakLongName(k), DirLeakLongName(k ^ 1)}
 			} else {
 				gf = Generate(cr, GenOpts{Mode: mode, Index: c.Index})
 			}
@@ -443,10 +465,35 @@ func Main(args []string) {
 				execC = append(execC, ob.Coq(d))
 			}
 		}
+		// the tree and its twins (same tree, one file renamed): digests with the file name normalised
+		var twinC []string
+		if len(c.Twins) > 0 {
+			norm := func(dd *dumper, l *Load, name string) string {
+				if l.Err != nil || l.Panic != "" {
+					return cg.List([]string{d.S("load failed: " + l.Class + l.Panic)})
+				}
+				lines := compiledDigest(l.Exec, dd)
+				for i := range lines {
+					lines[i] = strings.ReplaceAll(lines[i], name, "LONG")
+					lines[i] = strings.ReplaceAll(lines[i], filepath.Base(dd.root), "ROOT") // basename $PWD in the root dir
+				}
+				return d.SL(lines)
+			}
+			twinC = append(twinC, norm(d, tree.load(d, false), c.TwinNames[0]))
+			for ti, tw := range c.Twins {
+				tt, err := writeTree(tw)
+				if err != nil {
+					panic(err)
+				}
+				td := &dumper{root: tt.Root}
+				twinC = append(twinC, norm(td, tt.load(td, false), c.TwinNames[ti+1]))
+				tt.Remove()
+			}
+		}
 		tree.Remove()
 
-		items = append(items, fmt.Sprintf("(Build_mcase %s\n   %s\n   %s\n   %s\n   %s)",
-			fsC, d.S("/R/Taskfile.yml"), readC, cg.List(loadsC), cg.List(execC)))
+		items = append(items, fmt.Sprintf("(Build_mcase %s\n   %s\n   %s\n   %s\n   %s\n   %s)",
+			fsC, d.S("/R/Taskfile.yml"), readC, cg.List(loadsC), cg.List(execC), cg.List(twinC)))
 		idx = append(idx, i)
 
 		for _, f := range c.Features {
@@ -479,7 +526,8 @@ func Main(args []string) {
 		names[k] = fmt.Sprintf("case_%d", k)
 	}
 	fmt.Fprintf(&sb, "Definition cases : list mcase := %s.\n", cg.List(names))
-	results := []string{"R_read", "R_merge", "R_wf"}
+	results := []string{"R_read", "R_merge", "R_wf", "R_vardir"}
+	sb.WriteString("Definition R_vardir := Eval vm_compute in failures mon_vardir cases.\nPrint R_vardir.\n")
 	sb.WriteString("Definition R_wf := Eval vm_compute in failures wf_case cases.\nPrint R_wf.\n")
 	sb.WriteString("Definition R_read := Eval vm_compute in failures agree_read cases.\nPrint R_read.\n")
 	sb.WriteString("Definition R_merge := Eval vm_compute in failures agree_merge cases.\nPrint R_merge.\n")
